@@ -220,7 +220,15 @@ Fixpoint chain_ok (l : list span_t) : bool :=
   | c :: l' => forallb (fun c' => implb (fst c =? fst c') (snd c =? fst c)) l' && chain_ok l'
   end.
 
-Definition wf_node (n s e : N) (m : option matched) (ins : list (N * N)) (sp : list span_t) : bool :=
+(** a match whose [apply] yields at least one segment: it spans a token, or inserts a meta, or
+    has a child that does *)
+Fixpoint produces (x : mr) : bool :=
+  match x with
+  | MR s e _ ins ch => negb (s =? e) || negb (is_empty ins) || existsb produces ch
+  end.
+
+Definition wf_node (n s e : N) (m : option matched) (ins : list (N * N)) (sp : list span_t)
+           (prod : bool) : bool :=
   (s <=? e) && (e <=? n)
   && forallb (fun c => (s <=? fst c) && (fst c <=? snd c) && (snd c <=? e)) sp
   && forallb (fun c => forallb (fun c' => implb (fst c <? fst c') (snd c <=? fst c')) sp) sp
@@ -230,14 +238,15 @@ Definition wf_node (n s e : N) (m : option matched) (ins : list (N * N)) (sp : l
   && (is_empty ins || (0 <? n))
   && match m with
      | None => true
-     | Some (MKind _) => negb (s =? e) || negb (is_empty ins)
+     | Some (MKind _) => negb (s =? e) || negb (is_empty ins) || prod
      | Some (MNewtype _) => (e =? s + 1) && is_empty ins && is_empty sp
      end.
 
 Fixpoint wf (n : N) (x : mr) : bool :=
   match x with
   | MR s e m ins ch =>
-      forallb (wf n) ch && wf_node n s e m ins (map (fun c => (mr_start c, mr_end c)) ch)
+      forallb (wf n) ch
+      && wf_node n s e m ins (map (fun c => (mr_start c, mr_end c)) ch) (existsb produces ch)
   end.
 
 (** the root match must start where the grammar was started ([start_idx]: [root_parse] copies
